@@ -54,7 +54,7 @@ Definition check_dataset (ie : bool) (ref : list zbin) (c : list zbin * obs) : b
   let '(d, o) := c in
   let bins := zip_bins ref d in
   Nat.eqb (length d) (length ref)
-  && close (chi2_stat ie bins) (of_bits (o_chi2 o))
+  && close2 (chi2_stat ie bins) (of_bits (o_chi2 o))
   && Nat.eqb (ndf ie bins) (o_ndf o).
 
 Definition check_case (c : bool * Z * list zbin * list (list zbin * obs) * bool) : bool :=
